@@ -5,7 +5,7 @@ use crate::engine::*;
 use crate::tape::Tape;
 
 pub const QUICK_CASES: u64 = 3_000_000;
-pub const THOROUGH_CASES: u64 = 30_000_000;
+pub const THOROUGH_CASES: u64 = 200_000_000;
 
 // ------------------------------------------------------------------------------------------------
 // byte strings
